@@ -70,7 +70,7 @@ def predicates(tier):
     out = [("d0", p) for p in ATOMS] + [("d1", p) for p in d1] + [("d2", p) for p in d2]
     # depth 3: NOT over all depth-2 trees; binary connectives of a depth-2 tree with an atom / depth-1 tree
     d3 = [("not", x) for x in d2]
-    partners = ATOMS if tier == "quick" else ATOMS + d1s
+    partners = ATOMS if tier == "quick" else ATOMS + d1s[:40]
     step = 7 if tier == "quick" else 1
     d2sel = d2[::step]
     for k in ("and", "or"):
